@@ -2015,3 +2015,37 @@ def r16_10(rep):
     ok = bool(dots) and all(any(kind == "cond" and pol and "FunctionSig::is_variadic" in tb.canon(g, 5) for pol, kind, g in tb.guards(d_)) for d_ in dots)
     rep.check(ok, "fnptr-ellipsis@Type::serialize", "a variadic function type is written with `, ...`" if ok else
               "the Function arm never writes `...`: `int (*cb)(int, ...)` is serialised as `int (*cb) (int)`", tb.loc(body))
+
+
+# names rust_mangle rewrites although no edition reserves them any more (reserved before Rust 1.0); the golden expectation
+# keywords.rs pins them.  Each is an instance of the recorded R16.1 finding (a renamed static function gets no wrapper).
+LEGACY_MANGLED = {"alignof", "offsetof", "proc", "pure", "sizeof"}
+
+
+@RULES.rule("R16.11", "rust_mangle renames no name that Rust does not reserve (a renamed static function is bound without a wrapper)", floor=70)
+def r16_11(rep):
+    """`Function::codegen` wraps a static function only when the binding needs no `#[link_name]` (`should_wrap = .. &&
+    link_name_attr.is_none()`, the recorded R16.1 finding).  A function whose C name is rewritten by `rust_mangle` always needs one.
+    Every word added to the table therefore moves one more C identifier from "wrapped" to "bound to an internal symbol, no wrapper":
+    adding `f16` / `f128` did that to `static inline int f16(void)` in a seeded change.  The table may hold exactly the words the
+    language reserves (all editions), `_`, the primitive type names bindgen writes without a path, and the five legacy words."""
+    import c01
+    orc = c01.oracle()
+    b, words, word_nodes, tested, test_nodes = c01.mangle_model(rep)
+    rep.need(words, "the literal keyword set matched on `name` in rust_mangle")
+    allowed = set(orc["keywords"]) | set(orc["wildcard"]) | set(orc["primitive_types_emitted_unqualified"])
+    loc = b.loc(word_nodes[0]) if word_nodes else b.loc(b.root)
+    for w in sorted(set(words)):
+        ok = w in allowed or w in LEGACY_MANGLED
+        rep.check(ok, "needless-rename:" + w, ("reserved by the language" if w in allowed else "legacy word, pinned by keywords.rs") if ok else
+                  "`%s` is a legal Rust identifier, but rust_mangle renames it to `%s_`: a static function of that name now gets "
+                  "`#[link_name = \"%s\"]` on an internal symbol and no wrapper" % (w, w, w), loc)
+
+
+@RULES.rule("R16.12", "the wrapper file holds exactly this generation's wrappers: files opened for writing start empty (shared with C11 R11.9)", floor=2)
+def r16_12(rep):
+    """`fs::write` replaces the file.  Streaming the wrappers through `OpenOptions::new().write(true).create(true)` without
+    `truncate(true)` leaves the tail of the previous run behind when the new text is shorter: the file then defines wrappers for
+    functions that have no binding any more, or does not compile (seeded change)."""
+    import c11
+    c11.r11_9(rep)
